@@ -709,6 +709,85 @@ func (b *bb) scenarioDynamic() {
 	close(stopped)
 	b.leakProbe("Stop of v1 priority after AddInput/RemoveInput")
 	b.note("dynamic", fmt.Sprintf("H=%d", H), before)
+	b.dynamicLate()
+}
+
+// a producer registers its (last) channel and asks for a graceful stop right afterwards, while
+// every handler is busy: once AddInput() has returned the channel is registered, so whatever was
+// written to it before it was closed is delivered before the discipline terminates (C02, C17)
+func (b *bb) dynamicLate() {
+	before := b.fails()
+	H := uint(1 + b.r.Intn(4))
+	ctx, cancel := context.WithCancel(context.Background())
+	defer cancel()
+	output := make(chan p1.Prioritized[int])
+	feedback := make(chan uint, int(H))
+	base := make(chan int, int(H))
+	for i := 0; i < int(H); i++ {
+		base <- 100000 + i
+	}
+	close(base)
+	dsc, err := p1.New(p1.Opts[int]{Ctx: ctx, Divider: p1.FairDivider, Feedback: feedback, HandlersQuantity: H,
+		Inputs: map[uint]<-chan int{1: base}, Output: output})
+	if err != nil {
+		b.fail("C17 v1 New failed: %v", err)
+		return
+	}
+	// every handler takes an item and keeps it
+	for i := 0; i < int(H); i++ {
+		select {
+		case <-output:
+		case <-time.After(5 * time.Second):
+			b.fail("C06 late: item %d of %d was not delivered within 5s although handlers are vacant", i, H)
+			return
+		}
+	}
+	const n = 3
+	late := make(chan int, n)
+	for i := 0; i < n; i++ {
+		late <- 200000 + i
+	}
+	close(late)
+	returned := make(chan struct{})
+	go func() {
+		dsc.AddInput(late, 2)
+		dsc.GracefulStop()
+		close(returned)
+	}()
+	time.Sleep(time.Duration(b.r.Intn(3)) * time.Millisecond)
+	for i := 0; i < int(H); i++ {
+		feedback <- 1
+	}
+	got := 0
+	deadline := time.After(10 * time.Second)
+loop:
+	for {
+		select {
+		case it := <-output:
+			if it.Priority != 2 || it.Item != 200000+got {
+				b.fail("C02 late: expected item %d of priority 2, got item %d tagged %d", 200000+got, it.Item, it.Priority)
+			}
+			got++
+			feedback <- it.Priority
+		case <-returned:
+			break loop
+		case <-deadline:
+			b.fail("C07 late: GracefulStop() did not return within 10s although every input is closed and every item released (%d of %d late items delivered)", got, n)
+			break loop
+		}
+	}
+	if got != n {
+		b.fail("C02 late: AddInput(ch, 2) returned, then GracefulStop() returned, but only %d of the %d items written to ch before it was closed were delivered (H=%d, all handlers were busy when AddInput was called)", got, n, H)
+	}
+	select {
+	case e, ok := <-dsc.Err():
+		if ok && e != nil {
+			b.fail("C15 late: unexpected error %v", e)
+		}
+	case <-time.After(5 * time.Second):
+	}
+	b.leakProbe("graceful termination of v1 priority after a late AddInput")
+	b.note("dynamic", fmt.Sprintf("late H=%d", H), before)
 }
 
 type hookCtx struct {
